@@ -135,7 +135,25 @@ static int tm_count_dir(const char *path) {
 	return n - 0;
 }
 static int tm_fd_count(void) { int n = tm_count_dir("/proc/self/fd"); return n > 0 ? n - 1 : n; /* minus the dirfd itself */ }
-static int tm_task_count(void) { return tm_count_dir("/proc/self/task"); }
+static int tm_task_count_raw(void) { return tm_count_dir("/proc/self/task"); }
+/* A joined thread's /proc entry can linger for a moment: take the minimum seen over a short settle period. */
+static int tm_task_count(void) {
+	int best = tm_task_count_raw(), i;
+	for (i = 0; i < 40; i++) {
+		struct timespec ts = {0, 1000000}; int n;
+		nanosleep(&ts, NULL);
+		n = tm_task_count_raw();
+		if (n < best) { best = n; i = 0; }
+	}
+	return best;
+}
+
+/* wall-clock watchdog for deadlocks (a blocked process burns no CPU, so the per-case CPU alarm cannot see it) */
+static void tm_on_wall_alarm(int sig) {
+	static const char m[] = "\nVERIF-HANG wall-clock watchdog (process blocked)\n";
+	(void)sig; (void)!write(2, m, sizeof(m) - 1); _exit(97);
+}
+static void tm_watchdog(unsigned secs) { signal(SIGALRM, tm_on_wall_alarm); alarm(secs); }
 
 /* bounded wait on a relaxed counter: returns 0 when *ctr >= want, -1 on watchdog */
 static int tm_wait_ge(volatile uint64_t *ctr, uint64_t want, unsigned watchdog_ms) {
